@@ -52,7 +52,8 @@ RULE = (
     '>=2 threads, or the same spec is built twice. Every successful build '
     'is additionally compared across 4 interpreter contexts (hash seeds x '
     'modes), so every evaluated history differs in hash seed from its '
-    'references. Distinct by sha1 of the history.')
+    'references. Distinct by sha1 of the history.'
+    ' envdefs stage: EnvGen definitions over every envelope constructor and output-unit definitions over nested literal lists, built 2-3 times with the same argument objects (a failing build in between); thread barriers run behind a lock proxy that pauses after release.')
 ASSUMPTIONS = [
     'Reference interpreters are long-lived (they build many specs); a '
     'history-dependence inside a reference shows up as a mismatch too.',
